@@ -55,6 +55,75 @@ fn error_status(s: &ErrScript) -> Option<ErrorStatusCode> {
     }
 }
 
+/// The error a script describes (None: its status is not representable).
+pub fn build_scripted(s: &ErrScript) -> Option<HttpError> {
+    let built: Option<HttpError> = match s.ctor.as_str() {
+        "client_error" => client_status(s)
+            .map(|sc| HttpError::for_client_error(s.code.clone(), sc, s.external.clone())),
+        "with_status" => client_status(s)
+            .map(|sc| HttpError::for_client_error_with_status(s.code.clone(), sc)),
+        "bad_request" => Some(HttpError::for_bad_request(s.code.clone(), s.external.clone())),
+        "internal" => Some(HttpError::for_internal_error(s.internal.clone())),
+        "unavail" => Some(HttpError::for_unavail(s.code.clone(), s.internal.clone())),
+        "not_found" => Some(HttpError::for_not_found(s.code.clone(), s.internal.clone())),
+        _ => error_status(s).map(|sc| HttpError {
+            status_code: sc,
+            error_code: s.code.clone(),
+            external_message: s.external.clone(),
+            internal_message: s.internal.clone(),
+            headers: None,
+        }),
+    };
+    built.map(|mut e| {
+        for (i, (n, v)) in s.headers.iter().enumerate() {
+            if i % 3 == 2 {
+                e.headers_mut().append(
+                    http::HeaderName::from_bytes(n.as_bytes()).unwrap(),
+                    http::HeaderValue::from_str(v).unwrap(),
+                );
+            } else if i % 2 == 0 {
+                let _ = e.add_header(n.as_str(), v.as_str());
+            } else {
+                e = match e.with_header(n.as_str(), v.as_str()) {
+                    Ok(e2) => e2,
+                    Err(_) => HttpError::for_internal_error("harness: bad header in script".into()),
+                };
+            }
+        }
+        e
+    })
+}
+
+/// A version policy of the application's own: a request carrying
+/// `x-ver-script: <hex of an ErrScript>` is refused by the policy with the
+/// error the script describes (an application is free to answer 401, 503 or
+/// anything else from here, with headers attached); every other request is
+/// handed to the stock header policy.
+#[derive(Debug)]
+pub struct ScriptedVersionPolicy(pub dropshot::ClientSpecifiesVersionInHeader);
+
+impl dropshot::DynamicVersionPolicy for ScriptedVersionPolicy {
+    fn request_extract_version(
+        &self,
+        request: &http::Request<dropshot::Body>,
+        log: &slog::Logger,
+    ) -> Result<semver::Version, HttpError> {
+        if let Some(hex) = request.headers().get("x-ver-script") {
+            let raw: Vec<u8> = hex
+                .as_bytes()
+                .chunks(2)
+                .filter_map(|c| std::str::from_utf8(c).ok().and_then(|c| u8::from_str_radix(c, 16).ok()))
+                .collect();
+            if let Ok(s) = serde_json::from_slice::<ErrScript>(&raw) {
+                if let Some(e) = build_scripted(&s) {
+                    return Err(e);
+                }
+            }
+        }
+        self.0.request_extract_version(request, log)
+    }
+}
+
 #[endpoint { method = POST, path = "/err", request_body_max_bytes = 65536 }]
 async fn err_scripted(
     rqctx: RequestContext<SimCtx>,
@@ -68,43 +137,9 @@ async fn err_scripted(
         g.step(u64::from(i) + 1);
     }
     let s = body.into_inner();
-    let built: Option<HttpError> = match s.ctor.as_str() {
-        "client_error" => client_status(&s)
-            .map(|sc| HttpError::for_client_error(s.code.clone(), sc, s.external.clone())),
-        "with_status" => client_status(&s)
-            .map(|sc| HttpError::for_client_error_with_status(s.code.clone(), sc)),
-        "bad_request" => Some(HttpError::for_bad_request(s.code.clone(), s.external.clone())),
-        "internal" => Some(HttpError::for_internal_error(s.internal.clone())),
-        "unavail" => Some(HttpError::for_unavail(s.code.clone(), s.internal.clone())),
-        "not_found" => Some(HttpError::for_not_found(s.code.clone(), s.internal.clone())),
-        _ => error_status(&s).map(|sc| HttpError {
-            status_code: sc,
-            error_code: s.code.clone(),
-            external_message: s.external.clone(),
-            internal_message: s.internal.clone(),
-            headers: None,
-        }),
-    };
-    let r = match built {
+    let r = match build_scripted(&s) {
         None => Ok(HttpResponseOk(Refused { refused: true })),
-        Some(mut e) => {
-            for (i, (n, v)) in s.headers.iter().enumerate() {
-                if i % 3 == 2 {
-                    e.headers_mut().append(
-                        http::HeaderName::from_bytes(n.as_bytes()).unwrap(),
-                        http::HeaderValue::from_str(v).unwrap(),
-                    );
-                } else if i % 2 == 0 {
-                    let _ = e.add_header(n.as_str(), v.as_str());
-                } else {
-                    e = match e.with_header(n.as_str(), v.as_str()) {
-                        Ok(e2) => e2,
-                        Err(_) => HttpError::for_internal_error("harness: bad header in script".into()),
-                    };
-                }
-            }
-            Err(e)
-        }
+        Some(e) => Err(e),
     };
     g.finish();
     r
